@@ -233,3 +233,33 @@ def fresh_across_threads(ctx):
     reference handed to every consumer is the guard / parameter itself, never a copy of its state (C16.rng-threading)."""
     from . import c16
     c16.rng_threading(ctx)
+
+
+@rule('C19', 'no-panic-under-lock', configs=('default',))
+def no_panic_under_lock(ctx):
+    """A panic while the guard of Covercrypt.rng is live poisons the mutex: every later call of every thread on the shared
+    instance then panics on its `expect`.  Every crate-local panic site reachable from a call made inside a guard's live range
+    must therefore be discharged (same audit as C14.panic, over the functions run under the lock)."""
+    from . import c14
+    F = ctx.F
+    callees = set()
+    accessors = lib.guard_accessors(F)
+    for body in F.fns():
+        for c in body.calls():
+            if not (c.is_(LOCK) or is_accessor_call(F, c)):
+                continue
+            if body.key in accessors and c.is_(LOCK):
+                continue
+            g = guard_local(body, c)
+            region, _drops = live_region(body, c, g)
+            for b in region:
+                t = body.term(b)
+                if t['k'] == 'call':
+                    cal = lib.local_callee(F, body.call_at(b))
+                    if cal is not None:
+                        callees.add(cal.key)
+    CG = lib.callgraph(F)
+    reach = CG.reachable(sorted(callees))
+    n = c14.audit_panics(ctx, F, reach, 'a call made while the RNG lock is held')
+    ctx.floor(len(callees), 8, 'functions called under the lock')
+    ctx.note('%d functions run under the lock, %d reachable, %d panic sites audited' % (len(callees), len(reach), n))
